@@ -152,10 +152,14 @@ func discharge(obls []*Obligation, opt solveOpts) {
 			for _, c := range cfgs {
 				plan = append(plan, attempt{c, short})
 			}
-			if opt.timeoutS > short {
+			if opt.timeoutS > short && !o.ExpectSat {
 				for _, c := range cfgs {
 					plan = append(plan, attempt{c, opt.timeoutS})
 				}
+			}
+			if o.ExpectSat {
+				// vacuity probes: only a definite 'unsat' matters; one short attempt
+				plan = plan[:1]
 			}
 			o.Status = "unknown"
 			for _, a := range plan {
